@@ -276,3 +276,56 @@ func (g *PGraph) ParallelLines() bool {
 	}
 	return false
 }
+
+// CyclesEnumerable reports whether a naive enumeration of the elementary cycles of the graph (depth-first search over
+// simple paths, parallel lines counted once) finishes within the given number of steps. Enumerating elementary cycles
+// is exponential in general; callers use this to decide whether asking the library for all cycles is affordable.
+func (g *PGraph) CyclesEnumerable(budget int) bool {
+	idx := map[*PNode]int{}
+	var nodes []*PNode
+	for _, id := range g.Order {
+		idx[g.Nodes[id]] = len(nodes)
+		nodes = append(nodes, g.Nodes[id])
+	}
+	succ := make([][]int, len(nodes))
+	for i, n := range nodes {
+		seen := map[int]bool{}
+		for _, e := range n.Out {
+			j := idx[e.To]
+			if !seen[j] {
+				seen[j] = true
+				succ[i] = append(succ[i], j)
+			}
+		}
+	}
+	steps := 0
+	onPath := make([]bool, len(nodes))
+	var dfs func(s, v int) bool
+	dfs = func(s, v int) bool {
+		for _, w := range succ[v] {
+			steps++
+			if steps > budget {
+				return false
+			}
+			if w < s || onPath[w] {
+				continue // w == s closes a cycle (counted as a step); smaller indices belong to earlier start nodes
+			}
+			onPath[w] = true
+			ok := dfs(s, w)
+			onPath[w] = false
+			if !ok {
+				return false
+			}
+		}
+		return true
+	}
+	for s := range nodes {
+		onPath[s] = true
+		ok := dfs(s, s)
+		onPath[s] = false
+		if !ok {
+			return false
+		}
+	}
+	return true
+}
